@@ -26,8 +26,9 @@ def load_known():
     return json.load(open(p))
 
 
-def start_native(pid, tier, seed):
-    out = os.path.join(HERE, 'evidence', '%s.native.tmp' % pid)
+def start_native(pid, tier, seed, evd=None):
+    out = os.path.join(evd or os.path.join(HERE, 'evidence'), '%s.native.tmp' % pid)
+    os.makedirs(os.path.dirname(out), exist_ok=True)
     if os.path.exists(out):
         os.remove(out)
     env = dict(os.environ)
@@ -57,6 +58,7 @@ def main():
     ap.add_argument('--replay')
     ap.add_argument('--update-ledger', action='store_true')
     ap.add_argument('--no-native', action='store_true')
+    ap.add_argument('--evidence-dir', help='write evidence/replays elsewhere (self-test on scratch copies)')
     a = ap.parse_args()
     pid = a.prop
     seed = int(os.environ.get('VERIF_SEED', '0') or 0)
@@ -73,12 +75,14 @@ def main():
         p = subprocess.run([NATIVE_PY, '-W', 'ignore', '-m', 'native.run', '--replay', a.replay], cwd=HERE, env=env)
         sys.exit(p.returncode)
     t0 = time.time()
-    os.makedirs(os.path.join(HERE, 'evidence'), exist_ok=True)
-    os.makedirs(os.path.join(HERE, 'replays'), exist_ok=True)
+    EVD = a.evidence_dir or os.path.join(HERE, 'evidence')
+    RPD = a.evidence_dir or os.path.join(HERE, 'replays')
+    os.makedirs(EVD, exist_ok=True)
+    os.makedirs(RPD, exist_ok=True)
     problems = []       # exit 3
     nat_handle = None
     if cfg.get('native') and not a.no_native:
-        nat_handle = start_native(pid, tier, seed)
+        nat_handle = start_native(pid, tier, seed, a.evidence_dir)
     # ------------------------------------------------------------ deductive part
     ded = dict(obligations=0, discharged=0, by_backend={}, solver_time=0.0, functions=[], failed=[], canaries=0,
                out_of_subset=[], samples=[], gen_time=0.0)
@@ -163,7 +167,7 @@ def main():
     failed_led = [f for f in ded['failed'] if f['obligation'] in led]
     failed_new = [f for f in ded['failed'] if f['obligation'] not in led]
     if violations:
-        replay_path = os.path.join(HERE, 'replays', '%s_%s_%d.json' % (pid, tier, seed))
+        replay_path = os.path.join(RPD, '%s_%s_%d.json' % (pid, tier, seed))
         json.dump(dict(property=pid, kind='native', failures=violations[:10],
                        failed_obligations=ded['failed'][:10]), open(replay_path, 'w'), indent=1, default=str)
         print('VIOLATION property=%s replay=%s' % (pid, replay_path))
@@ -174,7 +178,7 @@ def main():
         exit_code = 1
     elif any(f['verdict'] == 'candidate' for f in failed_led + failed_new):
         cands = [f for f in failed_led + failed_new if f['verdict'] == 'candidate']
-        replay_path = os.path.join(HERE, 'replays', '%s_%s_%d.json' % (pid, tier, seed))
+        replay_path = os.path.join(RPD, '%s_%s_%d.json' % (pid, tier, seed))
         json.dump(dict(property=pid, kind='obligation', failures=[dict(check='obligation:' + f['obligation'], input=f.get('model'),
                        message='obligation refuted by the solver (clause: %s); no failing real input found in the bounded native domain' % f.get('clause'))
                        for f in cands[:10]], failed_obligations=ded['failed'][:20]), open(replay_path, 'w'), indent=1, default=str)
@@ -221,7 +225,7 @@ def main():
     ev = dict(property_id=pid, tier=tier, seed=seed, level=level, coverage=cov,
               assumptions=COMMON_TRUSTED + cfg.get('assumptions', []) + [COMMON_DROPPED], wall_s=round(wall, 2),
               violations=len(violations) + (1 if exit_code == 1 and not violations else 0))
-    json.dump(ev, open(os.path.join(HERE, 'evidence', pid + '.json'), 'w'), indent=1, default=str)
+    json.dump(ev, open(os.path.join(EVD, pid + '.json'), 'w'), indent=1, default=str)
     print('%s tier=%s obligations=%d discharged=%d native_evaluations=%d failures=%d wall=%.1fs exit=%d' % (
         pid, tier, ded['obligations'], ded['discharged'], (nat or {}).get('evaluations', 0), len(violations), wall, exit_code))
     sys.exit(exit_code)
